@@ -519,12 +519,12 @@ theorem mkRegisterDirect_ok {L : Layout} {dim : Nat} {qs : List (QId × RPos)} {
       by_cases h3 : ¬ ids.Nodup
       · rw [if_pos h3] at h; cases h
       · rw [if_neg h3] at h
-        by_cases h4 : ids.length ≠ qs.length
-        · rw [if_pos h4] at h; cases h
-        · rw [if_neg h4] at h
-          by_cases h5 : ¬ (ids.all fun i => decide (i < L.nTraps)) = true
-          · rw [if_pos h5] at h; cases h
-          · rw [if_neg h5] at h
+        by_cases h5 : ¬ (ids.all fun i => decide (i < L.nTraps)) = true
+        · rw [if_pos h5] at h; cases h
+        · rw [if_neg h5] at h
+          by_cases h4 : ids.length ≠ qs.length
+          · rw [if_pos h4] at h; cases h
+          · rw [if_neg h4] at h
             by_cases h6 : ¬ allOnTraps L qs ids = true
             · rw [if_pos h6] at h; cases h
             · rw [if_neg h6] at h
